@@ -67,7 +67,7 @@ Proof.
   intros V v ws a b ds file Ta Tb Hok Hfile.
   rewrite spec_ok_mapped in Hok.
   assert (L : length file = length (map (strip ws) (split_lines a))).
-  { rewrite (count_split a Ta) in Hfile. injection Hfile as ->. now rewrite map_length. }
+  { rewrite (count_split a Ta) in Hfile. injection Hfile as Hf. rewrite map_length. congruence. }
   destruct (consumer_accepts list_eqb v _ _ file ds list_eqb_spec Hok L) as (file' & E & Lf & R).
   rewrite !map_length in *. exists file'. rewrite E. repeat split; [|exact R].
   rewrite (count_split b Tb). now rewrite Lf.
